@@ -675,6 +675,21 @@ def concat_rule(ctx):
             wt, _ = wrapped(t, depth + 1) if t is not None else (False, "")
             we, _ = wrapped(el, depth + 1) if el is not None else (False, "")
             # `if has_wrap_to_string { x } else { wrap_to_string(x) }` : x is already a wrapped chain when the flag is set
+            if c in ("has_wrap_to_string", "!has_wrap_to_string"):
+                # the flag describes the chain built so far: it must be read before this branch sets it
+                cur = e
+                while id(cur) in pm:
+                    par = pm[id(cur)]
+                    if par.get("k") == "block":
+                        idx = [i for i, st in enumerate(par["stmts"]) if any(y is cur for y in (st, st.get("e"), st.get("init")))]
+                        if idx:
+                            for st in par["stmts"][:idx[0]]:
+                                if any(y.get("k") == "assign" and sir.expr_str(y["l"]) == "has_wrap_to_string" for y in sir.walk(st)):
+                                    return False, "decided by has_wrap_to_string AFTER this branch has already set it (the operand built before is never wrapped)"
+                            break  # only the straight-line statements of the same block
+                    if par.get("k") in ("arm", "closure", "fn"):
+                        break
+                    cur = par
             if c == "has_wrap_to_string" and we and t is not None and t.get("k") == "path":
                 return True, "already wrapped chain or wrap_to_string(..)"
             if c == "!has_wrap_to_string" and wt and el is not None and el.get("k") == "path":
@@ -777,6 +792,58 @@ def roots_of(e, f, at=None, depth=0, seen=None):
     return out
 
 
+def normalise_rule(ctx):
+    """attribute-name normalisation: a family whose runtime entry point does not camel-case the name itself must be camel-cased by
+    the parser (the runtime side is read from proc_gen_wrapper.ts on every run)"""
+    import tsproto
+    ob = ctx.ob
+    tc = ctx.tc
+    ep = [f for f in tc.fns if f.base == "Element" and f.name == "parse" and f.body]
+    ts = ctx.ts()
+    if not ep or not ts:
+        return [ob("C04.normalise/anchor", False, "parse/tag.rs", "Element::parse or proc_gen_wrapper.ts not found")]
+    f = ep[0]
+    camel = set()
+    slot_normal = False
+    found = False
+    for m in sir.walk(f.node, into_items=True):
+        if m.get("k") != "match" or "prefix" not in sir.expr_str(m["e"]):
+            continue
+        arms_with = [a for a in m["arms"] if any(x.get("k") == "call" and sir.call_name(x) == "dash_to_camel" for x in sir.walk(a["body"]))]
+        if len(arms_with) < 2:
+            continue
+        found = True
+        for a in arms_with:
+            vs = [v for v in sir.pat_variants(a["pat"])]
+            direct = a["body"].get("k") == "struct" or (a["body"].get("k") == "block" and len(a["body"]["stmts"]) == 1 and a["body"]["stmts"][0].get("k") == "expr" and a["body"]["stmts"][0]["e"].get("k") == "struct")
+            for v in vs:
+                if v == "Normal":
+                    slot_normal = any(x.get("k") == "if" and "ElementKind::Slot" in sir.pat_str(x["cond"]["pat"]) for x in sir.walk(a["body"]) if x.get("k") == "if" and x["cond"].get("k") == "let")
+                elif direct:
+                    camel.add(v)
+    if not found:
+        return [ob("C04.normalise/anchor", False, ctx.where(f), "the name-normalisation match of Element::parse was not found")]
+    obs = []
+
+    def runtime_normalises(method):
+        m = re.search(r"\n  %s = \(" % re.escape(method), ts)
+        if not m:
+            return None
+        i = ts.index("=> {", m.end())
+        j = tsproto._match(ts, i + 3, "{", "}")
+        body = ts[i:j]
+        return "dashToCamelCase(name)" in body
+    for fam, method in (("Change", "p"), ("Worklet", "wl"), ("Model", "r")):
+        rn = runtime_normalises(method)
+        ok = rn is not None and (fam in camel or rn)
+        obs.append(ob("C04.normalise/%s" % fam, ok, ctx.where(f), "`%s:` names: camel-cased by the parser: %s; by the runtime entry point R.%s: %s" % (fam.lower(), fam in camel, method, rn),
+                      witness=None if ok else "`%s:my-prop` is registered under `my-prop`, which no component property is called" % fam.lower()))
+    ok = ("SlotDataRef" in camel) == slot_normal
+    obs.append(ob("C04.normalise/slot-values", ok, ctx.where(f), "slot value names are camel-cased where they are provided (<slot my-val>): %s and where they are referenced (slot:my-val): %s" % (slot_normal, "SlotDataRef" in camel),
+                  witness=None if ok else "`<slot my-val=..>` / `slot:my-val` no longer meet under one name"))
+    return obs
+
+
 def run(ctx):
     obs = proto_rule(ctx)
     obs += child_lists_rule(ctx)
@@ -784,6 +851,7 @@ def run(ctx):
     obs += branch_rule(ctx)
     obs += text_rule(ctx)
     obs += concat_rule(ctx)
+    obs += normalise_rule(ctx)
     from rules.c12 import check_entities
     for x in check_entities(ctx):
         x = dict(x)
